@@ -106,6 +106,8 @@ structure Obs where
   pd : Option (List (Nat × Art) × List String)
   la : List Act := []
   lb : Nat := 0
+  /-- directory entries OUTSIDE the storage directory that this call changed (reported for a repeated init only) -/
+  outside : Nat := 0
 deriving Repr, Inhabited
 
 def actChar : Act → Char
@@ -136,7 +138,7 @@ def renderObs (o : Obs) : String :=
   let pd := match o.pd with
     | none => "pd=M"
     | some (arts, junk) => s!"pd={joinWith "," (arts.map renderArt)} junk={joinWith "," ((sortStrs junk).map encTok)}"
-  s!"ret={renderRet o.ret} net={joinWith "," (o.net.map renderNet)} {sj} {pj} {pd} la={renderActs o.la} lb={o.lb}"
+  s!"ret={renderRet o.ret} net={joinWith "," (o.net.map renderNet)} {sj} {pj} {pd} la={renderActs o.la} lb={o.lb} out={o.outside}"
 
 /-- Observation of a model world (directory listing sorted by number). -/
 def obsOf (w : World) (ret : Ret) (net : List NetAct) (la : List Act := []) (lb : Nat := 0) : Obs :=
@@ -169,7 +171,8 @@ def diffFields (a b : Obs) : List String :=
   (if (match a.pd, b.pd with
         | some (_, x), some (_, y) => sortStrs x != sortStrs y
         | _, _ => false) then ["junk"] else []) ++
-  (if a.la != b.la || a.lb != b.lb then ["locks"] else [])
+  (if a.la != b.la || a.lb != b.lb then ["locks"] else []) ++
+  (if a.outside != b.outside then ["outside"] else [])
 
 /-- The storage directory an observation shows. -/
 def diskOfObs (o : Obs) : Disk :=
@@ -288,7 +291,8 @@ def parseObs (parts : List String) : Option Obs := do
       pure (some (arts, junk))
   let la ← f.lookup "la" >>= parseActs
   let lb ← f.lookup "lb" >>= String.toNat?
-  pure { ret := ret, net := net, sj := sj, pj := pj, pd := pd, la := la, lb := lb }
+  let outside := ((f.lookup "out") >>= String.toNat?).getD 0
+  pure { ret := ret, net := net, sj := sj, pj := pj, pd := pd, la := la, lb := lb, outside := outside }
 
 def parseBoolOpt (s : String) : Option (Option Bool) :=
   if s == "!" then some none else if s == "1" then some (some true) else if s == "0" then some (some false) else none
@@ -377,6 +381,14 @@ def parseOp (parts : List String) (pjHist : Array (JFile PatchesState)) (sjHist 
     match sjHist[k]? with
     | some (.ok v) => pure (.damage (.sjSet v))
     | _ => none
+  | ["dmg", "sj-stale", k, "m"] => do
+    -- the current state.json (if it is well-formed) with the queued events of version k appended, the whole list twice
+    let k ← k.toNat?
+    match sjHist.back?, sjHist[k]? with
+    | some (.ok cur), some (.ok old) =>
+      pure (.damage (.sjSet { cur with events := (cur.events ++ old.events) ++ (cur.events ++ old.events) }))
+    | some _, some (.ok _) => pure (.damage .nop)
+    | _, _ => none
   | ["dmg", "nop"] => some (.damage .nop)
   | _ => none
 
